@@ -1,0 +1,93 @@
+//go:build verif
+
+package eventlogger
+
+import (
+	"sort"
+	"sync/atomic"
+)
+
+// This file only exists in builds with the "verif" tag. It gives an external
+// verification harness (a) a callback at named points of the dispatch protocol
+// and (b) a read-only snapshot of the Broker's registry.
+
+var verifHook atomic.Value // func(string, ...interface{})
+
+// VerifSetHook installs (or, with nil, removes) the callback invoked at every verifPoint.
+func VerifSetHook(f func(string, ...interface{})) {
+	if f == nil {
+		f = func(string, ...interface{}) {}
+	}
+	verifHook.Store(f)
+}
+
+func verifPoint(name string, args ...interface{}) {
+	if f, ok := verifHook.Load().(func(string, ...interface{})); ok {
+		f(name, args...)
+	}
+}
+
+// VerifNode describes one registered node.
+type VerifNode struct {
+	ID             NodeID
+	Node           Node
+	ReferenceCount int
+	Policy         RegistrationPolicy
+}
+
+// VerifLinked is one linked node of a registered pipeline.
+type VerifLinked struct {
+	ID   NodeID
+	Node Node
+}
+
+// VerifPipeline describes one registered pipeline (linear pipelines only: the
+// first child of every linked node is followed).
+type VerifPipeline struct {
+	EventType EventType
+	ID        PipelineID
+	Policy    RegistrationPolicy
+	Nodes     []VerifLinked
+}
+
+// VerifGraph describes the graph of one event type.
+type VerifGraph struct {
+	EventType             EventType
+	SuccessThreshold      int
+	SuccessThresholdSinks int
+	Pipelines             []VerifPipeline
+}
+
+// VerifSnapshot returns the registry as it is now (sorted by id).
+func (b *Broker) VerifSnapshot() ([]VerifNode, []VerifGraph) {
+	b.lock.RLock()
+	defer b.lock.RUnlock()
+
+	nodes := make([]VerifNode, 0, len(b.nodes))
+	for id, u := range b.nodes {
+		nodes = append(nodes, VerifNode{ID: id, Node: u.node, ReferenceCount: u.referenceCount, Policy: u.registrationPolicy})
+	}
+	sort.Slice(nodes, func(i, j int) bool { return nodes[i].ID < nodes[j].ID })
+
+	graphs := make([]VerifGraph, 0, len(b.graphs))
+	for t, g := range b.graphs {
+		vg := VerifGraph{EventType: t, SuccessThreshold: g.successThreshold, SuccessThresholdSinks: g.successThresholdSinks}
+		g.roots.Range(func(id PipelineID, p *registeredPipeline) bool {
+			vp := VerifPipeline{EventType: t, ID: id, Policy: p.registrationPolicy}
+			for n := p.rootNode; n != nil; {
+				vp.Nodes = append(vp.Nodes, VerifLinked{ID: n.nodeID, Node: n.node})
+				if len(n.next) == 0 {
+					break
+				}
+				n = n.next[0]
+			}
+			vg.Pipelines = append(vg.Pipelines, vp)
+			return true
+		})
+		sort.Slice(vg.Pipelines, func(i, j int) bool { return vg.Pipelines[i].ID < vg.Pipelines[j].ID })
+		graphs = append(graphs, vg)
+	}
+	sort.Slice(graphs, func(i, j int) bool { return graphs[i].EventType < graphs[j].EventType })
+
+	return nodes, graphs
+}
